@@ -380,7 +380,8 @@ def instantiate(h, call, caller_node, recv, target_names=None):
         if isinstance(a, ast.Lambda) and p not in stored and _only_called(h.body, p, a):
             lambdas[p] = a
             continue
-        if p not in stored and _simple_arg(a) and not (isinstance(a, ast.Name) and a.id in stored and a.id != p) and not (target_names and p in target_names):
+        once_pure = h.expr is not None and _pure(a) and sum(1 for n in ast.walk(h.expr) if isinstance(n, ast.Name) and n.id == p) <= 1
+        if p not in stored and (_simple_arg(a) or once_pure) and not (isinstance(a, ast.Name) and a.id in stored and a.id != p) and not (target_names and p in target_names):
             if isinstance(a, ast.Name) and a.id == p:
                 continue            # same name, nothing to do
             exprs[p] = a
@@ -487,7 +488,7 @@ def _matches(call, h, selfnames):
             return False
         # `self.helper(..)`; or, for a helper whose name is defined once in the whole package, `other.helper(..)` on another object of the class;
         # a static helper may also be reached through the class name
-        return f.value.id in selfnames or (h.unique and h.expr is not None) or (h.static and h.cls is not None and f.value.id == h.cls.name)
+        return f.value.id in selfnames or h.unique or (h.static and h.cls is not None and f.value.id == h.cls.name)
     return isinstance(f, ast.Name) and f.id == h.name
 
 
@@ -743,4 +744,66 @@ def inline_fresh_helpers(modules, baseline=None, rounds=4):
             break           # helper set changed: recompute
         if not progressed:
             break
+    return log
+
+
+# ----------------------------------------------------------------------------------------------- parametrised factories
+
+def specialise_fresh_factories(modules, baseline=None):
+    """`X = _fresh_factory(<constants>)` at module or class level, where the fresh private factory is
+           def _fresh_factory(p, ..):  [docstring]  def inner(..): ...   return inner
+       becomes `def X(..): <body of inner with p := constant>` (a closure over constants is the function with the constants written in).
+       The factory definition is removed when every use was specialised."""
+    baseline = baseline if baseline is not None else baseline_names()
+    log = []
+    for m in modules.values():
+        facs = {}
+        for st in m.tree.body:
+            if isinstance(st, ast.FunctionDef) and is_private(st.name) and ('%s.%s' % (m.name, st.name)) not in baseline and not st.decorator_list:
+                body = list(st.body)
+                if body and isinstance(body[0], ast.Expr) and isinstance(body[0].value, ast.Constant) and isinstance(body[0].value.value, str):
+                    body = body[1:]
+                a = st.args
+                if len(body) == 2 and isinstance(body[0], ast.FunctionDef) and isinstance(body[1], ast.Return) and isinstance(body[1].value, ast.Name) \
+                        and body[1].value.id == body[0].name and not (a.vararg or a.kwarg or a.kwonlyargs or a.defaults):
+                    params = [x.arg for x in a.posonlyargs + a.args]
+                    stored = {n.id for n in ast.walk(body[0]) if isinstance(n, ast.Name) and isinstance(n.ctx, ast.Store)}
+                    if not (set(params) & stored):
+                        facs[st.name] = (st, body[0], params)
+        if not facs:
+            continue
+        uses = {k: 0 for k in facs}
+        done = {k: 0 for k in facs}
+        for n in ast.walk(m.tree):
+            if isinstance(n, ast.Name) and n.id in facs and isinstance(n.ctx, ast.Load):
+                uses[n.id] += 1
+
+        def rewrite(stmts):
+            out = []
+            for st in stmts:
+                if isinstance(st, ast.ClassDef):
+                    st.body = rewrite(st.body)
+                if isinstance(st, ast.Assign) and len(st.targets) == 1 and isinstance(st.targets[0], ast.Name) and isinstance(st.value, ast.Call) \
+                        and isinstance(st.value.func, ast.Name) and st.value.func.id in facs and not st.value.keywords \
+                        and all(isinstance(x, ast.Constant) for x in st.value.args):
+                    fdef, inner, params = facs[st.value.func.id]
+                    if len(st.value.args) == len(params):
+                        new = copy.deepcopy(inner)
+                        new.name = st.targets[0].id
+                        mapping = dict(zip(params, st.value.args))
+                        new.body = [Rename({}, mapping).visit(x) for x in new.body]
+                        ast.copy_location(new, st)
+                        ast.fix_missing_locations(new)
+                        out.append(new)
+                        done[st.value.func.id] += 1
+                        continue
+                out.append(st)
+            return out
+        m.tree.body = rewrite(m.tree.body)
+        for k, (fdef, inner, params) in facs.items():
+            if done[k] and done[k] == uses[k]:
+                m.tree.body.remove(fdef)
+                log.append(('%s.%s' % (m.name, k), ['<%d bindings>' % done[k]], 'specialised'))
+            elif done[k]:
+                log.append(('%s.%s' % (m.name, k), [], 'partly specialised (%d of %d uses)' % (done[k], uses[k])))
     return log
